@@ -73,15 +73,6 @@ ASSUMPTIONS = [
 ]
 
 
-def kind_of(ev):
-    e = ev.get("e")
-    if e == "ret":
-        return "ret"
-    if e == "wev":
-        return "wev"
-    return e or "?"
-
-
 def split_histories(rows):
     out, cur = [], None
     for r in rows:
@@ -490,10 +481,13 @@ def selftest():
         results = {}
         # (i) flip a CAS failure into a success
         c1 = json.loads(json.dumps(rows))
-        e = next(x for x in c1 if x.get("e") == "inv" and x["op"]["t"] == "write" and x["res"]["t"] == "err")
+        errs = [x for x in c1 if x.get("e") == "inv" and x["op"]["t"] == "write" and x["res"]["t"] == "err"]
+        won = {(json.dumps(x["op"]["k"], sort_keys=True), x["op"]["pv"]) for x in c1
+               if x.get("e") == "inv" and x["op"]["t"] == "write" and x["res"]["t"] == "ok" and x["op"]["pv"]}
+        e = next((x for x in errs if (json.dumps(x["op"]["k"], sort_keys=True), x["op"]["pv"]) in won), errs[0])
         e["res"] = {"t": "ok", "e": "", "rs": [{"k": e["op"]["k"], "uid": e["op"]["uid"], "ver": "9999", "d": e["op"]["d"], "own": e["op"]["own"]}]}
-        _, f1, _, _ = validate(c1)
-        results["cas-failure-flipped-to-success"] = [describe(x) for x in f1]
+        _, f1, s1, _ = validate(c1)
+        results["cas-failure-flipped-to-success"] = [describe(x) for x in f1] + ["static:" + "+".join(n) for _, n in s1]
         # (ii) a watcher receives its last live event twice
         c2 = json.loads(json.dumps(rows))
         lives = [i for i, x in enumerate(c2) if x.get("e") == "wev" and x.get("ph") == "live" and x.get("kind") in ("upsert", "delete")]
